@@ -527,11 +527,30 @@ static void meta_run(MetaCase const &c, std::vector<int> const &order, std::stri
   sch += "]";
   std::string det = cj.substr(0, cj.size() - 1) + ",\"step_order\":" + sch + (trunc_at >= 0 ? ",\"peer_hills_file_truncated_to\":" + std::to_string(trunc_at) + ",\"before_action\":" + std::to_string(trunc_before_action) : "");
   bool failed = false;
-  auto check_safety = [&](const char *when) {
+  std::vector<long> last_sync(c.n, -1);     // last step at which each walker synchronised (and flushed its hills file)
+  std::vector<bool> rewrote(c.n, false);    // the walker has rewritten its state file and recreated its hills file
+  bool lag_reported = false;
+  auto check_safety = [&](const char *when, int synced_walker) {
     for (int w = 0; w < c.n && !failed; w++) {
       std::string raw;
       auto m = meta_multiplicities(ctl, c, w, dep, raw);
       if (!ctl.fatal.empty()) { r.violation("C14:meta:walker-died-or-hung", det + ",\"problem\":\"" + jesc(ctl.fatal) + "\"}"); failed = true; return; }
+      // timeliness: right after walker w synchronised, its bias must hold every hill that a peer had published (deposited
+      // before the peer's own last synchronisation, at which it flushed its hills file)
+      if (w == synced_walker && trunc_at < 0 && !lag_reported)
+        for (int p = 0; p < c.n; p++) {
+          if (p == w) continue;
+          int missing = 0, first = -1;
+          for (int s = 1; s < c.L && s < last_sync[p]; s++) if (dep[p][s] && m[p][s] == 0) { missing++; if (first < 0) first = s; }
+          if (missing) {
+            r.count("published_hills_missing_after_a_synchronisation", missing);
+            r.violation(std::string("C14:meta:published-hills-missing-after-synchronisation") + (rewrote[p] ? ":peer-had-recreated-its-hills-file" : ":peer-never-rewrote-its-files") + (restarted ? ":after-restart" : ""),
+                        det + ",\"walker\":" + std::to_string(w) + ",\"peer\":" + std::to_string(p) + ",\"peer_last_synchronised_at_step\":" + std::to_string(last_sync[p]) +
+                        ",\"missing_hills\":" + std::to_string(missing) + ",\"first_missing_hill_step\":" + std::to_string(first) + "}");
+            lag_reported = true;
+            break;
+          }
+        }
       for (int p = 0; p < c.n && !failed; p++)
         for (int s = 1; s < c.L && !failed; s++) {
           bool d = dep[p][s];
@@ -591,7 +610,10 @@ static void meta_run(MetaCase const &c, std::vector<int> const &order, std::stri
       failed = true;
       break;
     }
-    check_safety("after step action");
+    bool synced = (s > 0 && (s % c.upd) == 0);
+    if (synced) last_sync[i] = s;
+    if (s > 0 && (s % 2) == 0) rewrote[i] = true;  // colvarsRestartFrequency 2
+    check_safety("after step action", synced ? i : -1);
   }
   // completeness at quiescence: every walker takes `extra` more steps (hills beyond L are not deposited at probe points)
   if (!failed) {
